@@ -75,7 +75,8 @@ def render_affine(draw, coefs, const, env, allow_vector_forms=True):
             sub = [remaining.get(n, 0.0) for n in el]
             if not any(sub):
                 continue
-            style = draw(st.sampled_from(["elementwise", "lincomb", "lincomb", "vsum", "shifted", "slice", "matvecrow"]))
+            style = draw(st.sampled_from(["elementwise", "lincomb", "lincomb", "vsum", "shifted", "slice", "matvecrow",
+                                          "reversed", "reversed"]))
             V = ["vvar", v["name"]]
             if style == "vsum" and len(set(sub)) == 1:
                 r = ["vsum", V] if draw(st.booleans()) else ["vector_sum", V]
@@ -95,6 +96,16 @@ def render_affine(draw, coefs, const, env, allow_vector_forms=True):
                 r = ["lincomb", sub[lo:hi], ["slice", V, lo if lo else None, hi if hi < v["n"] else None, None],
                      draw(st.sampled_from(["c@x", "x@c"]))]
                 forms.append("c@x[a:b]")
+            elif style == "reversed":
+                # a reduction over the reversed view of the whole vector: coefficients pair with x[n-1], ..., x[0]
+                RV = ["slice", V, None, None, -1]
+                if len(set(sub)) == 1 and draw(st.booleans()):
+                    r = ["vsum", RV]
+                    if sub[0] != 1:
+                        r = ["bin", "*", _cnum(draw, sub[0]), r]
+                else:
+                    r = ["lincomb", sub[::-1], RV, draw(st.sampled_from(["c@x", "x@c", "LinearCombination"]))]
+                forms.append("c@x[::-1]")
             elif style == "matvecrow":
                 # element of A @ x
                 other = [draw(st.sampled_from(COEFS)) for _ in el]
@@ -249,8 +260,37 @@ def lp_models(draw, want=None):
                      "rows": [[[float({**{k: 0 for k in names}, **coefs, **{k: -v for k, v in right.items()}}[nm]) for nm in names],
                                sns, float(b)]]})
 
+    def add_bare_row():
+        """`x.sum() <= 4 - 3*x[0]` / `c @ x >= 6 - 2*x[1]`: a bare whole-vector reduction against an expression"""
+        v = draw(st.sampled_from(env["vectors"]))
+        el = [f"{v['name']}[{i}]" for i in range(v["n"])]
+        V = ["vvar", v["name"]]
+        if draw(st.booleans()):
+            left = {nm: 1.0 for nm in el}
+            L = ["vsum", V]
+        else:
+            cs = [draw(st.sampled_from(COEFS)) for _ in el]
+            left = dict(zip(el, [float(c_) for c_ in cs]))
+            L = ["lincomb", cs, V, draw(st.sampled_from(["c@x", "x@c"]))]
+        mv = draw(st.sampled_from(el))
+        a = draw(st.sampled_from([3, -2, 1, 0.5]))
+        full = dict(left)
+        full[mv] = full.get(mv, 0.0) + a           # L <= b - a*x_mv   <=>   L + a*x_mv <= b
+        val = sum(full[nm] * xhat[nm] for nm in full)
+        sns = draw(st.sampled_from(["<=", ">=", "=="]))
+        slack = draw(st.sampled_from([0, 1, 4]))
+        b = val + slack if sns == "<=" else val - slack if sns == ">=" else val
+        R = ["bin", "-", _cnum(draw, b), ["bin", "*", _cnum(draw, a), _var_recipe(mv, env)]]
+        forms.append("bare-reduction-vs-expression")
+        cons.append({"kind": "scalar", "lhs": L, "sense": sns, "rhs": R, "written": "direct",
+                     "rows": [[[float(full.get(nm, 0.0)) for nm in names], sns, float(b)]]})
+
     for _ in range(m):
-        kind = draw(st.sampled_from(["scalar", "scalar", "scalar", "matvec", "vecbound"]))
+        kind = draw(st.sampled_from(["scalar", "scalar", "scalar", "matvec", "vecbound", "bare"]))
+        if kind == "bare":
+            if env["vectors"]:
+                add_bare_row()
+            continue
         if kind == "scalar" or not env["vectors"]:
             k = draw(st.integers(1, min(n, 4)))
             support = draw(st.lists(st.sampled_from(names), min_size=k, max_size=k, unique=True))
@@ -313,8 +353,17 @@ def lp_models(draw, want=None):
             if sgn * c[nm] < 0 and ub is None:
                 add_row({nm: 1}, "<=", xhat[nm] + draw(st.sampled_from([0, 2])))
     obj, f0 = render_affine(draw, c, c0, env)
-    if sense == "maximize" and draw(st.integers(0, 3)) == 0:
-        pass
+    if env["vectors"] and draw(st.integers(0, 5)) == 0:
+        # the objective is exactly ONE vector reduction whose constant lives inside it:  c @ (x + k)
+        v = env["vectors"][0]
+        el = [f"{v['name']}[{i}]" for i in range(v["n"])]
+        k = draw(st.sampled_from([1, -2, 0.5]))
+        cs = [draw(st.sampled_from(COEFS)) for _ in el]
+        c = {nm: 0 for nm in names}
+        c.update(dict(zip(el, cs)))
+        c0 = k * sum(cs)
+        obj = ["lincomb", cs, ["vbin", "+", ["vvar", v["name"]], ["num", "pyfloat", k], "right"], draw(st.sampled_from(["c@x", "LinearCombination"]))]
+        f0 = ["bare c@(x+k) objective"]
     order = list(draw(st.permutations(list(range(len(cons))))))
     cons = [cons[i] for i in order]
     # columns = the variables the written model mentions (a declared but unused variable is not part of it)
@@ -426,9 +475,16 @@ def cvx_models(draw, allow_infeasible=False, allow_nonquadratic=True, max_n=5, c
     if nv:
         env["vectors"].append({"name": draw(st.sampled_from(gen.TINY_POOLS["vectors"] if gen.TINY else gen.VECTOR_NAMES)),
                                "n": draw(st.integers(1, max(1, max_n - ns)))})
+    pure_quad = constraints is not None and draw(st.integers(0, 5)) == 0
+    if pure_quad:
+        # the objective is exactly one quadratic form x'Mx (+ constant) with a NON-symmetric M and optimum 0
+        env = {"scalars": [], "vectors": [{"name": draw(st.sampled_from(gen.TINY_POOLS["vectors"] if gen.TINY else gen.VECTOR_NAMES)),
+                                           "n": draw(st.integers(2, max(2, max_n)))}], "matrices": [], "params": [], "views": {}}
+        snames, ns = [], 0
+        allow_nonquadratic = False
     names = sorted(all_var_names(env), key=natural_key)
     n = len(names)
-    xs = [draw(st.integers(-8, 8)) / 4.0 for _ in range(n)]
+    xs = [0.0] * n if pure_quad else [draw(st.integers(-8, 8)) / 4.0 for _ in range(n)]
     # Q = L L' + D  (positive definite, modest condition number)
     L = [[(draw(st.sampled_from([0, 0, 1, -1, 0.5])) if j < i else 0.0) for j in range(n)] for i in range(n)]
     Dg = [draw(st.sampled_from([1, 2, 3])) for _ in range(n)]
@@ -451,7 +507,15 @@ def cvx_models(draw, allow_infeasible=False, allow_nonquadratic=True, max_n=5, c
         else:
             grad[e["i"]] += 4 * (x[e["i"]] - e["d"]) ** 3
     rows = []  # dicts: coefs(list), sense, b, active, lam
-    if constraints:
+    if constraints and pure_quad:
+        for _ in range(draw(st.integers(0, 2))):
+            a = np.array([draw(st.sampled_from([1, -1, 2, 0])) for _ in range(n)], dtype=float)
+            if not a.any():
+                a[0] = 1.0
+            sns = draw(st.sampled_from(["<=", ">="]))
+            margin = draw(st.sampled_from([0.5, 1, 3]))
+            rows.append({"coefs": a.tolist(), "sense": sns, "b": margin if sns == "<=" else -margin, "active": False, "lam": 0.0})
+    elif constraints:
         for _ in range(draw(st.integers(0, 3))):
             k = draw(st.integers(1, min(n, 3)))
             idx = draw(st.lists(st.integers(0, n - 1), min_size=k, max_size=k, unique=True))
@@ -486,7 +550,7 @@ def cvx_models(draw, allow_infeasible=False, allow_nonquadratic=True, max_n=5, c
                 grad = grad - r["lam"] * np.array(r["coefs"])
             eqs = [keep_first]
     ball = None
-    if constraints and draw(st.integers(0, 4)) == 0:
+    if constraints and not pure_quad and draw(st.integers(0, 4)) == 0:
         cen = [draw(st.integers(-4, 4)) / 2.0 for _ in range(n)]
         dist2 = float(np.sum((x - np.array(cen)) ** 2))
         if draw(st.booleans()) and dist2 > 0.25:
@@ -503,7 +567,7 @@ def cvx_models(draw, allow_infeasible=False, allow_nonquadratic=True, max_n=5, c
     bounds = [[None, None] for _ in range(n)]
     decl_bounds = []
     for grp in groups:
-        typ = draw(st.sampled_from(["none", "none", "inside", "lb-active", "ub-active"])) if constraints else \
+        typ = draw(st.sampled_from(["none", "none", "inside", "lb-active", "ub-active"])) if (constraints and not pure_quad) else \
             draw(st.sampled_from(["none", "inside"]))
         lo, hi = min(xs[i] for i in grp), max(xs[i] for i in grp)
         if typ == "none":
@@ -530,7 +594,10 @@ def cvx_models(draw, allow_infeasible=False, allow_nonquadratic=True, max_n=5, c
     g = -grad
     c0 = draw(st.sampled_from([0, 0, 3, -1.5]))
     sense = draw(st.sampled_from(["minimize", "minimize", "maximize"]))
-    model = {"family": "cvx", "env": env, "names": names, "sense": sense, "flavour": "feasible",
+    if pure_quad:
+        assert not np.any(g), "pure quadratic flavour must have a zero linear term"
+        sense = "minimize"
+    model = {"family": "cvx", "pure_quad": pure_quad, "env": env, "names": names, "sense": sense, "flavour": "feasible",
              "data": {"Q": Q.tolist(), "g": g.tolist(), "c0": float(c0), "extras": extras, "rows": rows, "ball": ball,
                       "bounds": bounds, "xstar": xs}}
     _cvx_render(draw, model)
@@ -547,9 +614,21 @@ def _cvx_render(draw, model):
     terms, forms = [], []
     only_vector = bool(env["vectors"]) and not env["scalars"]
     qstyle = draw(st.sampled_from(["explicit", "quadform", "quadform"])) if only_vector else "explicit"
+    if model.get("pure_quad"):
+        qstyle = "quadform"
     if qstyle == "quadform":
         V = ["vvar", env["vectors"][0]["name"]]
-        terms.append(["quad", V, (Q / 2).tolist(), draw(st.sampled_from(["dot_matvec", "quadratic_form", "QuadraticForm", "dot_matmul_fn"]))])
+        Mq = Q / 2
+        if model.get("pure_quad") or draw(st.booleans()):
+            # same quadratic form, stored non-symmetrically (e.g. triangular): x'(Q/2 + K)x with K skew
+            K = np.zeros((n, n))
+            for i in range(n):
+                for j in range(i + 1, n):
+                    K[i, j] = draw(st.sampled_from([0.5, 1, -1, Mq[i, j]]))
+                    K[j, i] = -K[i, j]
+            Mq = Mq + K
+            forms.append("nonsymmetric-Q")
+        terms.append(["quad", V, Mq.tolist(), draw(st.sampled_from(["dot_matvec", "quadratic_form", "QuadraticForm", "dot_matmul_fn"]))])
         forms.append("quadform")
     else:
         for i in range(n):
@@ -569,8 +648,15 @@ def _cvx_render(draw, model):
         else:
             terms.append(["bin", "**", ["bin", "-", xr[e["i"]], ["const", "pyfloat", e["d"]]], ["const", "pyint", 4]])
             forms.append("quartic")
-    lin, f1 = render_affine(draw, dict(zip(names, d["g"])), d["c0"], env)
-    terms.append(lin)
+    if model.get("pure_quad"):
+        f1 = []
+        if d["c0"] != 0:
+            terms = [["bin", "+", terms[0], _cnum(draw, d["c0"])]] if draw(st.booleans()) else \
+                [["bin", "-", terms[0], _cnum(draw, -d["c0"])]]
+        forms.append("bare-quadratic-form")
+    else:
+        lin, f1 = render_affine(draw, dict(zip(names, d["g"])), d["c0"], env)
+        terms.append(lin)
     order = list(draw(st.permutations(terms)))
     f = order[0]
     for t in order[1:]:
